@@ -36,7 +36,7 @@ package y
 
 //@ func SameKey
 //@   props C20
-//@   requires len(src) >= 8 && len(dst) >= 8
+//@   domain len(src) >= 8 && len(dst) >= 8
 //@   ensures[same] result <==> (len(src) == len(dst) && bytes(uk(src)) == bytes(uk(dst)))
 
 // ---- varints and the value struct (C20; also what Arena.putVal/getVal rely on, C06) ----
@@ -69,3 +69,63 @@ package y
 //@   ensures[expiry] v.ExpiresAt == uvVal(b[2:])
 //@   ensures[value] v.Value == b[2+uvLen(b[2:]):]
 //@   assigns v.Meta, v.UserMeta, v.ExpiresAt, v.Value
+
+// ---- bloom filter (C19) ----
+
+//@ spec delta(h uint32) uint32 = h>>17 | h<<15
+//@ opaque spec mul32(a uint32, b uint32) uint32 = a*b
+//@ lemma mul32-succ: forall a uint32, b uint32, d uint32 {mul32(a,d), mul32(b,d)} :: b == a+1 ==> mul32(b,d) == mul32(a,d) + d
+//@ lemma mul32-zero: forall a uint32, d uint32 {mul32(a,d)} :: a == 0 ==> mul32(a,d) == 0
+//@ opaque spec pos(h uint32, j uint32, n uint32) uint32 = (h + mul32(j, delta(h))) % n
+//@ spec bit(f []byte, p uint32) bool = f[p/8] & (byte(1) << (p%8)) != 0
+
+//@ func extend
+//@   props C19
+//@   requires 0 <= n && n <= 1<<40
+//@   ensures[len] len(overall) == n + len(b) && len(trailer) == n
+//@   ensures[trailer] trailer == overall[len(b):]
+//@   ensures[zero] forall i int :: 0 <= i && i < n ==> trailer[i] == 0
+//@   ensures[prefix] bytes(overall[:len(b)]) == bytes(old(b))
+//@   ensures[alias] fresh(overall) || overall == b[:n+len(b)]
+//@   assigns b[len(b):cap(b)]
+//@   loop 1 invariant[zeroed] -1 <= rangeindex && rangeindex < n && forall i int :: 0 <= i && i <= rangeindex ==> trailer[i] == 0
+//@   loop 1 modifies trailer[0:n]
+//@   loop 2 invariant[cap] c >= 1024 && (c <= 1024 || c <= want + want/4)
+
+//@ func appendFilter
+//@   props C19
+//@   requires len(buf) == 0
+//@   domain bitsPerKey <= 64 && len(keys) <= 1<<24
+//@   ensures[shape] len(result) >= 9 && len(result) < 1<<28 && 1 <= result[len(result)-1] && result[len(result)-1] <= 30
+//@   ensures[bits] forall i int, j uint32 {pos(keys[i], j, uint32(8*(len(result)-1)))} :: 0 <= i && i < len(keys) && j < uint32(result[len(result)-1]) ==> bit(result, pos(keys[i], j, uint32(8*(len(result)-1))))
+//@   assigns buf[0:cap(buf)]
+//@   loop 1 invariant[done] forall i int, j uint32 {pos(keys[i], j, uint32(nBits))} :: 0 <= i && i <= rangeindex && j < k ==> bit(filter, pos(keys[i], j, uint32(nBits)))
+//@   loop 1 invariant[range] -1 <= rangeindex && rangeindex < len(keys)
+//@   assert[sizes] before call extend : nBytes >= 8 && nBytes <= 1<<27 && nBits == 8*nBytes
+//@   loop 1 modifies filter[0:nBytes]
+//@   loop 2 modifies filter[0:nBytes]
+//@   loop 2 invariant[j] j <= k && h == keys[rangeindex+1] + mul32(j, delta)
+//@   loop 2 invariant[cur] forall i int, jj uint32 {pos(keys[i], jj, uint32(nBits))} :: i == rangeindex+1 && jj < j ==> bit(filter, pos(keys[i], jj, uint32(nBits)))
+//@   loop 2 invariant[done] forall i int, jj uint32 {pos(keys[i], jj, uint32(nBits))} :: 0 <= i && i <= rangeindex && jj < k ==> bit(filter, pos(keys[i], jj, uint32(nBits)))
+//@   loop 2 reveal pos(keys[rangeindex+1], j, uint32(nBits))
+//@   loop 2 decreases k - j
+
+//@ func NewFilter
+//@   props C19
+//@   domain bitsPerKey <= 64 && len(keys) <= 1<<24
+//@   ensures[shape] len(result) >= 9 && len(result) < 1<<28 && 1 <= result[len(result)-1] && result[len(result)-1] <= 30
+//@   ensures[bits] forall i int, j uint32 {pos(keys[i], j, uint32(8*(len(result)-1)))} :: 0 <= i && i < len(keys) && j < uint32(result[len(result)-1]) ==> bit(result, pos(keys[i], j, uint32(8*(len(result)-1))))
+
+//@ func (Filter).MayContain
+//@   props C19
+//@   domain len(f) < 1<<28
+//@   ensures[exact] result <==> (len(f) >= 2 && (f[len(f)-1] > 30 || forall j uint32 {pos(h, j, uint32(8*(len(f)-1)))} :: j < uint32(f[len(f)-1]) ==> bit(f, pos(h, j, uint32(8*(len(f)-1))))))
+//@   loop 1 invariant[j] j <= k && h == old(h) + mul32(uint32(j), delta)
+//@   loop 1 invariant[seen] forall jj uint32 {pos(old(h), jj, nBits)} :: jj < uint32(j) ==> bit(f, pos(old(h), jj, nBits))
+//@   loop 1 reveal pos(old(h), uint32(j), nBits)
+//@   loop 1 decreases k - j
+
+// hashOf: the value of y.Hash, a function of the content of its argument only.
+//@ declare hashOf(b []byte) uint32
+//@ trusted func Hash
+//@   ensures result == hashOf(b)
